@@ -21,7 +21,12 @@ RULE = ("E3: for every unit u in {'seconds','minutes','hours',1,2,7,60,90,"
         "k=0..40 (100) of it as start/duration; each pair is parsed in four "
         "orders of loading/parsing the two configurations in one process "
         "(immediately, both loaded first, reversed, sections interleaved, each parsed twice); "
-        "non-trivial = unit with f>1")
+        "plus E1 pairs: small whole-multiple configurations (chain of two "
+        "tasks with runtimes 1..3(4) steps of the unit, compute- or "
+        "data-bound, one transfer, 1-2 machines, queue/batch/static) are "
+        "SIMULATED with 'seconds' and with u in {2,7,minutes}(+3,60,90): "
+        "task runtimes and ingest durations in seconds and ingested volume "
+        "must agree; non-trivial = unit with f>1")
 
 UNITS = ["seconds", "minutes", "hours", 1, 2, 7, 60, 90, 3600]
 
@@ -253,6 +258,85 @@ def factor_sweep(tier):
                    "demand": 2, "ingest": 1, "sysbw": 1}
 
 
+def sim_pairs(tier):
+    """The same physical configuration (whole multiples of the unit
+    everywhere) to be SIMULATED with timestep 'seconds' and with unit u."""
+    from ..scopes import CLUSTERS
+    units = [2, 7, "minutes"] + ([3, 60, 90] if tier == "thorough" else [])
+    ks = [(1, 1), (1, 2), (2, 1), (3, 1)]
+    if tier == "thorough":
+        ks += [(2, 2), (1, 3), (4, 1)]
+    for unit in units:
+        f = factor(unit)
+        for M, machines in ((1, CLUSTERS[1][0]), (1, CLUSTERS[1][1]),
+                            (2, CLUSTERS[2][0])):
+            cpu, bw = machines[0]
+            for k1, k2 in ks:
+                for datak in (None, 2):
+                    for s, d, r in ((0, 1, 1), (1, 2, 2)):
+                        data = None if datak is None else \
+                            [datak * f * bw, 0]
+                        wa = dag("chain2", [k1 * f * cpu, k2 * f * cpu],
+                                 [f * bw], data=data)
+                        obs = [mkobs("a", s * f, d * f, r, 1, 1, "wa")]
+                        base = dict(machines=machines, obs=obs,
+                                    hot=(100 * f, 10), cold=(100 * f, 10),
+                                    arrays=2, max_ingest=2)
+                        algs = [{"kind": "queue"},
+                                {"kind": "batch", "p": 1, "min": 1}]
+                        asg = {"a": {"0": 0, "1": M - 1}}
+                        algs.append({"kind": "dynamic", "assign": asg})
+                        for alg in algs:
+                            yield {"engine": "E1-pair", "unit": unit,
+                                   "base": base, "wa": wa, "alg": alg}
+
+
+def _sim_observe(base, wa, alg, unit):
+    from .. import run as runmod, e1
+    from ..monitors import parse_tid
+    cfg = mkcfg(base["machines"], base["obs"], base["hot"], base["cold"],
+                base["arrays"], base["max_ingest"], timestep=unit)
+    case = mkcase(cfg, {"wa": wa}, alg)
+    r = runmod.execute(case, [], (), 40 + 12 * e1.horizon_of(case)
+                       if unit == "seconds" else e1.horizon_of(case))
+    f = factor(unit)
+    out = {"outcome": r.outcome, "tasks": {}, "volume": {}, "ingest": {}}
+    for tid, (ast, aft, fin) in runmod.task_table(r.sim).items():
+        o, kind, node = parse_tid(tid)
+        out["tasks"]["%s:%s:%s" % (o, kind, node)] = (aft - ast) * f
+    t0 = {}
+    for c in r.probe.calls:
+        if c["kind"] == "begin_obs":
+            t0[c["obs"]] = c["t"]
+        elif c["kind"] == "finish_obs":
+            out["ingest"][c["obs"]] = (c["t"] - t0.get(c["obs"], 0)) * f
+        elif c["kind"] == "deposit" and not c["raised"]:
+            out["volume"]["all"] = out["volume"].get("all", 0) + c["rate"]
+    return out
+
+
+def judge_sim(c):
+    """task runtimes / ingest durations in seconds and ingested volumes of a
+    whole simulated run must not depend on the unit"""
+    try:
+        a = _sim_observe(c["base"], c["wa"], c["alg"], "seconds")
+        b = _sim_observe(c["base"], c["wa"], c["alg"], c["unit"])
+    except Exception as e:
+        from ..seams import HarnessError
+        raise HarnessError("C16 simulated pair failed: %r" % (e,))
+    if a["outcome"] != "returned" or b["outcome"] != "returned":
+        return [], False
+    vs = []
+    for key, cause in (("tasks", "task-runtime-in-seconds"),
+                       ("ingest", "ingest-duration-in-seconds"),
+                       ("volume", "ingested-volume")):
+        if a[key] != b[key]:
+            vs.append(("C16.simulated-run",
+                       "%s-depends-on-unit" % cause,
+                       {"seconds": a[key], "unit": b[key]}))
+    return vs, True
+
+
 def run(rep, tier, seed):
     rep.rule = RULE
     rep.assumptions = ["values are whole multiples of the unit, as the "
@@ -272,7 +356,22 @@ def run(rep, tier, seed):
             rep.nontrivial.add(len(rep.nontrivial))
         for clause, cause, det in vs:
             rep.violation(clause, cause, c, det, "E3-unit-%s" % c["unit"])
-    rep.states = len(items)
+    pairs = common.rotate(list(sim_pairs(tier)), seed)
+
+    def work2(i, c):
+        return judge_sim(c)
+    res2, _ = engine.parallel_map(work2, pairs)
+    for c, (vs, ok) in zip(pairs, res2):
+        sc = "E1-simulated-pair/unit-%s" % c["unit"]
+        s = rep.scope(sc)
+        s["cases"] += 1
+        s["executions"] += 2
+        rep.evaluations += 1
+        if ok:
+            rep.nontrivial.add(len(rep.nontrivial))
+        for clause, cause, det in vs:
+            rep.violation(clause, cause, c, det, sc)
+    rep.states = len(items) + len(pairs)
     rep.outcomes = {len(r) for r in res}
     rep.add_sample(items[0])
     rep.add_sample(items[-1])
@@ -282,5 +381,8 @@ def run(rep, tier, seed):
 
 
 def replay(payload):
+    if payload.get("engine") == "E1-pair":
+        return [{"clause": a, "cause": b, "detail": c}
+                for a, b, c in judge_sim(payload)[0]]
     return [{"clause": a, "cause": b, "detail": c}
             for a, b, c in judge(payload)]
